@@ -13,7 +13,8 @@ RULE = (
     "that some volumes split, pass-through kwargs (liquid_class, tip as int/Tip/list, rack_id, rack_type, tube_id, "
     "forced_rack_type), plates and troughs (also source = destination labware), both devices; or a malformed call "
     "(incompatible lengths, a negative volume). Each valid case runs the call 4 times on fresh labware: as given, "
-    "with the triples in a Hypothesis-drawn permutation, and under the two other partition modes. Non-trivial = "
+    "with the triples in a Hypothesis-drawn permutation, under the two other partition modes, and once with one source "
+    "well holding too little so that the call is refused part-way (record grammar of what was emitted). Non-trivial = "
     ">= 2 triples whose order differs from the sorted order in both well lists, or a split; distinct by JSON."
 )
 ASSUMPTIONS = [
@@ -25,7 +26,7 @@ ASSUMPTIONS = [
 BUDGET = {"quick": (4, 600), "thorough": (16, 4000)}
 KNOWN_KINDS = {}
 STRATA = ["lists", "broadcast", "2d", "malformed"]
-REQUIRED_CLASSES = ["shape:lists", "shape:2d", "shape:broadcast-src", "shape:broadcast-dst", "shape:broadcast-vol", "shape:broadcast-wells", "split", "reordered-both", "malformed:negative", "malformed:length", "diti", "trough-source", "wash:flush", "wash:reuse", "auto_split:off", "malformed:auto_split=False", "malformed:auto_split=True"]
+REQUIRED_CLASSES = ["shape:lists", "shape:2d", "shape:broadcast-src", "shape:broadcast-dst", "shape:broadcast-vol", "shape:broadcast-wells", "split", "reordered-both", "malformed:negative", "malformed:length", "diti", "trough-source", "wash:flush", "wash:reuse", "auto_split:off", "malformed:auto_split=False", "malformed:auto_split=True", "aborted-after-complete-groups"]
 
 WASHES = [1, 2, 3, 4, "flush", "reuse"]
 
@@ -33,7 +34,8 @@ WASHES = [1, 2, 3, 4, "flush", "reuse"]
 @st.composite
 def _geom(draw):
     if draw(st.booleans()):
-        return {"kind": "trough", "rows": draw(st.integers(1, 8)), "cols": draw(st.integers(1, 3))}
+        # legacy = built the older way, Labware(name, 1, columns, virtual_rows=V), instead of Trough(...)
+        return {"kind": "trough", "rows": draw(st.integers(1, 8)), "cols": draw(st.integers(1, 3)), "legacy": draw(st.integers(0, 3)) == 0}
     return {"kind": "plate", "rows": draw(st.integers(1, 8)), "cols": draw(st.integers(1, 6))}
 
 
@@ -134,12 +136,21 @@ def enumerate_cases(tier):
                     yield dict(base, triples=triples, perm=list(range(n)), malformed="negative", bad_len=2, neg_at=k)
 
 
-def _mk(geom, name):
+def _mk(geom, name, short=None):
+    """Fresh roomy labware; short = (cell, amount): the real well of that cell holds only `amount`."""
     import robotools
 
     if geom["kind"] == "trough":
-        return robotools.Trough(name, geom["rows"], geom["cols"], min_volume=0, max_volume=1e9, initial_volumes=1e6)
-    return robotools.Labware(name, geom["rows"], geom["cols"], min_volume=0, max_volume=1e9, initial_volumes=1e6)
+        init = [1e6] * geom["cols"]
+        if short:
+            init[short[0][1]] = short[1]
+        if geom.get("legacy"):
+            return robotools.Labware(name, 1, geom["cols"], min_volume=0, max_volume=1e9, initial_volumes=np.array([init], dtype=float), virtual_rows=geom["rows"])
+        return robotools.Trough(name, geom["rows"], geom["cols"], min_volume=0, max_volume=1e9, initial_volumes=init)
+    init = np.full((geom["rows"], geom["cols"]), 1e6)
+    if short:
+        init[short[0][0], short[0][1]] = short[1]
+    return robotools.Labware(name, geom["rows"], geom["cols"], min_volume=0, max_volume=1e9, initial_volumes=init)
 
 
 def _pos(geom, cell, device):
@@ -203,7 +214,7 @@ def _args(case, triples):
     return s, d, v
 
 
-def _run(case, triples, pb, malformed=None):
+def _run(case, triples, pb, malformed=None, short=None):
     import robotools
 
     cls = robotools.EvoWorklist if case["device"] == "evo" else robotools.FluentWorklist
@@ -211,7 +222,7 @@ def _run(case, triples, pb, malformed=None):
     wl = cls(max_volume=case["M"], auto_split=auto_split, diti_mode=case["diti"])
     if not auto_split and not malformed:
         triples = [[t[0], t[1], min(t[2], case["M"])] for t in triples]
-    S = _mk(case["src"], "Source")
+    S = _mk(case["src"], "Source", short)
     D = S if case["same"] else _mk(case["dst"], "Dest")
     s, d, v = _args(case, triples)
     def relen(x):
@@ -401,6 +412,29 @@ def check_case(case) -> Obs:
                 break
         if not (np.allclose(S2.volumes, final[0], rtol=0, atol=1e-6) and np.allclose(D2.volumes, final[1], rtol=0, atol=1e-6)):
             obs.bad("C07/metamorphic-volumes", f"{tag}: final labware volumes differ from the original call")
+    # a transfer that is refused part-way (one source well runs short): what was emitted up to then consists of
+    # complete groups only - every aspirate with its dispense and its tip action - and moves nothing that was not requested
+    positive = [t for t in triples if t[2] > 0]
+    if positive and not case["same"]:
+        tk = positive[case["perm"][0] % len(positive)]
+        src_real = (lambda c: (0, c[1])) if case["src"]["kind"] == "trough" else (lambda c: (c[0], c[1]))
+        need = sum(t[2] for t in positive if src_real(t[0]) == src_real(tk[0]))
+        wl3, S3, D3, exc3 = _run(case, triples, case["pb"], short=(tk[0], need - tk[2] / 2))
+        obs.units += 1
+        obs.cls("aborted-transfer")
+        if exc3 is None:
+            obs.bad("C07/short-source-accepted", f"source well {wid(*tk[0])} holds {need - tk[2] / 2}, {need} requested from it: the transfer returned normally")
+        else:
+            rec3 = list(wl3)
+            g3 = _parse_stream(obs, case, rec3, f"aborted by {type(exc3).__name__}")
+            if g3 is not None:
+                got3, cnt3 = _flows(g3)
+                for key, val in got3.items():
+                    if val > want.get(key, 0.0) + 0.005 * cnt3[key] + 1e-9:
+                        obs.bad("C07/aborted-flows", f"aborted transfer: positions {key} received {val}, only {want.get(key, 0.0)} requested")
+                        break
+                if len(g3) >= 1:
+                    obs.cls("aborted-after-complete-groups")
     # classification
     if len(triples) >= 2:
         ss = [wid(*t[0]) for t in triples]
